@@ -404,9 +404,11 @@ PROPS["C06"] = {
 }
 
 PROPS["C12"] = {
-    "lean": ["TinkVerif.Props.C12"],
+    "lean": ["TinkVerif.Props.C12", "TinkVerif.Props.C12Tables"],
     "theorems": ["TinkVerif.Wire.decVarint_enc", "TinkVerif.Wire.decVarint_canon", "TinkVerif.Wire.decField_enc",
-                 "TinkVerif.Wire.decode_encode", "TinkVerif.Wire.encode_decode", "TinkVerif.Keyset.handleOf_toKeyset"],
+                 "TinkVerif.Wire.decode_encode", "TinkVerif.Wire.encode_decode", "TinkVerif.Keyset.handleOf_toKeyset"] +
+                T("TinkVerif.Gen.EnumTables", "enum_tables_round_trip enum_tables_injective exception_is_one_cell enum_tables_parser_range "
+                  "every_serializer_table_paired prefix_tables_follow_convention coverage"),
     "harness": [{"name": "c12", "timeout": 3000}],
     "rule": "for every registered key type × the grid of valid parameter combinations reachable through the public NewParameters "
             "constructors × variants × ids {0, 2^32-1, random} × fresh key material: SerializeKey → ParseKey is Equal and re-serialises "
@@ -422,11 +424,13 @@ PROPS["C12"] = {
         "text": "Theorems: the protobuf wire codec model round-trips every well-formed message (any fields, any values) and its strict "
                 "decoder accepts only canonical encodings (parse then serialise is byte-identical); varint codec laws for all 64-bit "
                 "values; writing a well-formed handle's entries to a keyset message and reading it back preserves ids, statuses, primary "
-                "and order. Tie: every key type's serialisation decoded and re-encoded by the Lean codec, Go-side Equal / byte-identical "
+                "and order; REGENERATED on every run from all */*/protoserialization.go: every enum/variant conversion table (82 switch tables, 40 "
+                "serializer/parser pairs) — parse∘serialize is the identity on every value, serializers are injective, every variant maps to "
+                "the like-named OutputPrefixType (kernel `decide` over the regenerated data). Tie: every key type's serialisation decoded and re-encoded by the Lean codec, Go-side Equal / byte-identical "
                 "re-serialisation over the full parameter grid, all keyset writer/reader pairs.",
         "design_ref": "DESIGN.md §5.12",
         "note": "Trusted: Lean kernel; protobuf library as implementation; accessor dumps hand-written in the harness.",
-        "technique": "Lean 4 proof (wire codec round trip + canonicity, keyset↔entries) + Go/Lean byte-level correspondence over the key-type grid",
+        "technique": "Lean 4 proof (wire codec round trip + canonicity, keyset↔entries; regenerated enum tables decided in the kernel) + Go/Lean byte-level correspondence over the key-type grid",
     },
 }
 PROPS["C17"] = {
